@@ -362,6 +362,16 @@ class Family:
         return None
 
     def _apply_filter(self, fexpr, rows: Tuple[Row, ...], fn: FuncInfo) -> Tuple[Row, ...]:
+        if not hasattr(self, "_filter_cache"):
+            self._filter_cache = {}
+        ck = (id(fexpr), tuple(id(r) for r in rows))
+        if ck in self._filter_cache:
+            return self._filter_cache[ck]
+        res = self._apply_filter_uncached(fexpr, rows, fn)
+        self._filter_cache[ck] = res
+        return res
+
+    def _apply_filter_uncached(self, fexpr, rows: Tuple[Row, ...], fn: FuncInfo) -> Tuple[Row, ...]:
         pred = None
         if isinstance(fexpr, ast.Lambda):
             pred, param, mod = fexpr.body, fexpr.args.args[0].arg, fn.module
